@@ -87,6 +87,8 @@ def rand_member(r, hostile=False, last=False):
         if kind == "link":
             method = b"-lhd-"
             tgt = nm(r.choice([1, 5, 30]))
+            if r.random() < 0.3:
+                tgt = tgt[:1] + b"|" + tgt[1:]        # (the name ends at the first '|'; the target may contain more of them)
             full = (path + b"/" if path else b"") + name.replace(b"|", b"_") + b"|" + tgt
             d, _, n = full.rpartition(b"/")
             exts += ([arc.x_name(n)] if n else []) + ([arc.x_path(d + b"/")] if d else [])
@@ -149,6 +151,9 @@ def rand_member(r, hostile=False, last=False):
     return bytes(raw), m
 
 
+RAW_MEMBERS = {}          # archive path -> the bytes of each member as generated (header + data), for Trace_List!RecordIsParse
+
+
 def make_archive(r, sc, tag, hostile=False, nmax=6):
     """an archive whose declared packed sizes are extreme but whose stored data is tiny: the list
     commands never read member data, but must step over it - so the sizes that are *listed* are
@@ -161,6 +166,7 @@ def make_archive(r, sc, tag, hostile=False, nmax=6):
     data = b"".join(parts) + b"\0"
     path = os.path.join(sc, tag + ".lzh")
     open(path, "wb").write(data)
+    RAW_MEMBERS[path] = parts
     return path
 
 
@@ -188,8 +194,12 @@ def list_event(lha, archive, members, mode, quiet, filters, now, mtime):
     p = V.run_bounded([lha.encode(), cmd.encode(), archive.encode()] + [bytes(f) for f in filters], capture_output=True, env=env, stdin=subprocess.DEVNULL, timeout=120)
     ms = []
     sel_p = sel_l = 0
-    for m in members:
+    import re as _re
+    raws = RAW_MEMBERS.get(_re.sub(r"\.s\d+$", "", archive))
+    for mi, m in enumerate(members):
         mm = dict(m)
+        if raws is not None and len(raws) == len(members) and len(raws[mi]) < 3000:
+            mm["rawhdr"] = list(raws[mi] + b"\0" * 8)
         mm["ratio"] = list(ratio_text(val(m["packed"]), val(m["length"])))
         ms.append(mm)
         full = bytes(x for x in m["path"] if x >= 0) + bytes(x for x in m["filename"] if x >= 0)
